@@ -143,6 +143,8 @@ fn pk_case(o: &mut Out, b: &[u8], fam: &str) {
         o.direct(up.as_deref() == Some(b), "c13: pk from_str(uppercase hex) == key", hex(b), format!("{:?}", up.map(|x| hex(&x))), hex(b));
         let ser = serialize(k);
         o.direct(ser[..] == b[..], "c13: pk consensus encoding == bytes", hex(b), hex(&ser), hex(b));
+        { let (cw, cl) = encode_chunked(k); o.direct(cw[..] == b[..] && cl == Some(32), "c13: pk consensus_encode into a short-writing io::Write gives the same 32 bytes and count", hex(b), format!("{} {:?}", hex(&cw), cl), format!("{} Some(32)", hex(b)));
+          let cr = decode_chunked::<PublicKey>(&ser).map(|(x, n)| (x.to_bytes().to_vec(), n)); o.direct(cr.as_ref().map(|(x, n)| x[..] == b[..] && *n == 32).unwrap_or(false), "c13: pk consensus_decode from a short-reading io::Read gives the same key and count", hex(b), format!("{:?}", cr.map(|(x, n)| (hex(&x), n))), hex(b)); }
         let de = deserialize::<PublicKey>(&ser).ok().map(|x| x.to_bytes().to_vec());
         o.direct(de.as_deref() == Some(b), "c13: pk consensus decode(encode) == key", hex(b), format!("{:?}", de.map(|x| hex(&x))), hex(b));
         let mut y = [0u8; 32]; y.copy_from_slice(b); y[31] &= 0x7f;
@@ -176,6 +178,7 @@ fn sk_case(o: &mut Out, b: &[u8], fam: &str) {
         let back = PrivateKey::from_str(&s).ok().map(|x| x.to_bytes().to_vec());
         o.direct(s == hex::encode(b) && back.as_deref() == Some(b), "c13: sk text round trip", hex(b), s, hex::encode(b));
         let ser = serialize(k);
+        { let (cw, cl) = encode_chunked(k); o.direct(cw[..] == b[..] && cl == Some(32), "c13: sk consensus_encode into a short-writing io::Write gives the same 32 bytes and count", hex(b), format!("{} {:?}", hex(&cw), cl), format!("{} Some(32)", hex(b))); }
         let de = deserialize::<PrivateKey>(&ser).ok().map(|x| x.to_bytes().to_vec());
         o.direct(ser[..] == b[..] && de.as_deref() == Some(b), "c13: sk consensus round trip", hex(b), hex(&ser), hex(b));
     }
